@@ -1,0 +1,119 @@
+//go:build verif
+
+package calendar
+
+// Contracts for package calendar, read by /verif/engine (govc). Comment-only: with or without the
+// build tag `verif` the compiled package is identical. Spec functions isleap, dim, diy, validYmd,
+// validHms, jdn, wd, ... come from SolarUtil/zz_contracts_verif.go.
+
+//@ # ================================================================ Solar
+
+//@ type Solar established_by NewSolar
+//@   invariant validYmd(self.year, self.month, self.day) && validHms(self.hour, self.minute, self.second)
+
+//@ spec func sjdn(s *Solar) int
+//@   = jdn(s.year, s.month, s.day)
+
+//@ spec func ssec(s *Solar) int
+//@   = s.hour*3600 + s.minute*60 + s.second
+
+//@ # supported range of the properties: civil years 1..9999
+//@ spec func jdnInRange(j int) bool
+//@   = 1721424 <= j && j <= 5373484
+
+//@ # day position inside a month with October 1582 renumbered 1..21, and back
+//@ spec func ren(y int, m int, d int) int
+//@   = ite(y == 1582 && m == 10 && d > 4, d-10, d)
+
+//@ func NewSolar(year int, month int, day int, hour int, minute int, second int) *Solar [C07 C04]
+//@   panics_iff !(validYmd(year, month, day) && validHms(hour, minute, second))
+//@   ensures result.year == year && result.month == month && result.day == day
+//@   ensures result.hour == hour && result.minute == minute && result.second == second
+
+//@ func NewSolarFromYmd(year int, month int, day int) *Solar [C07]
+//@   panics_iff !validYmd(year, month, day)
+//@   ensures result.year == year && result.month == month && result.day == day
+//@   ensures result.hour == 0 && result.minute == 0 && result.second == 0
+
+//@ func (solar *Solar) GetJulianDay() float64 [C04]
+//@   requires inYears(solar.year)
+//@   ensures result - (float64(sjdn(solar)) - 0.5 + float64(ssec(solar))/86400.0) <= 1.0/1048576.0
+//@   ensures (float64(sjdn(solar)) - 0.5 + float64(ssec(solar))/86400.0) - result <= 1.0/1048576.0
+//@   ensures implies(solar.hour == 12 && solar.minute == 0 && solar.second == 0, result == float64(sjdn(solar)))
+
+//@ func (solar *Solar) GetWeek() int [C04 C15 C20]
+//@   requires inYears(solar.year)
+//@   ensures result == wd(solar.year, solar.month, solar.day)
+
+//@ func (solar *Solar) Subtract(other *Solar) int [C04]
+//@   requires inYears(solar.year) && inYears(other.year)
+//@   ensures result == sjdn(solar) - sjdn(other)
+
+//@ func (solar *Solar) SubtractMinute(other *Solar) int [C04]
+//@   requires inYears(solar.year) && inYears(other.year)
+//@   ensures result == (sjdn(solar)-sjdn(other))*1440 + (solar.hour*60 + solar.minute) - (other.hour*60 + other.minute)
+
+//@ func (solar *Solar) IsAfter(other *Solar) bool [C04]
+//@   requires inYears(solar.year) && inYears(other.year)
+//@   ensures result == (sjdn(solar)*86400+ssec(solar) > sjdn(other)*86400+ssec(other))
+//@   use jdnMono(solar.year, solar.month, solar.day, other.year, other.month, other.day)
+//@   use jdnMono(other.year, other.month, other.day, solar.year, solar.month, solar.day)
+
+//@ func (solar *Solar) IsBefore(other *Solar) bool [C04]
+//@   requires inYears(solar.year) && inYears(other.year)
+//@   ensures result == (sjdn(solar)*86400+ssec(solar) < sjdn(other)*86400+ssec(other))
+//@   use jdnMono(solar.year, solar.month, solar.day, other.year, other.month, other.day)
+//@   use jdnMono(other.year, other.month, other.day, solar.year, solar.month, solar.day)
+
+//@ func (solar *Solar) NextDay(days int) *Solar [C04 C07]
+//@   requires inYears(solar.year) && jdnInRange(sjdn(solar) + days)
+//@   ensures sjdn(result) == sjdn(solar) + days
+//@   ensures result.hour == solar.hour && result.minute == solar.minute && result.second == solar.second
+//@   ensures inYears(result.year)
+//@   use dayLinear(solar.year, solar.month, solar.day)
+//@   loop 1 invariant 1 <= m && m <= 12 && d >= 1 && -50 <= y && y <= 10050 && daysInMonth == dim(y, m) && jdn(y, m, 1)+d-1 == sjdn(solar)+days
+//@   loop 1 decreases d
+//@   loop 2 invariant 1 <= m && m <= 12 && d >= 1 && -50 <= y && y <= 10050 && d+days <= dim(y, m) && jdn(y, m, 1)+d-1 == sjdn(solar)
+//@   loop 2 decreases 0 - d - days
+
+//@ func (solar *Solar) NextHour(hours int) *Solar [C04 C07]
+//@   requires inYears(solar.year) && -100000000 <= hours && hours <= 100000000 && jdnInRange(sjdn(solar) + divf(solar.hour+hours, 24))
+//@   ensures sjdn(result)*24 + result.hour == sjdn(solar)*24 + solar.hour + hours
+//@   ensures result.minute == solar.minute && result.second == solar.second
+//@   ensures inYears(result.year)
+
+//@ func (solar *Solar) NextYear(years int) *Solar [C04 C07]
+//@   requires inYears(solar.year) && inYears(solar.year + years)
+//@   ensures result.year == solar.year + years && result.month == solar.month
+//@   ensures result.day == ite(solar.year+years == 1582 && solar.month == 10 && solar.day > 4 && solar.day < 15, solar.day+10,
+//@           ite(solar.month == 2 && solar.day > 28 && !isleap(solar.year+years), 28, solar.day))
+//@   ensures result.hour == solar.hour && result.minute == solar.minute && result.second == solar.second
+
+//@ func (solar *Solar) NextMonth(months int) *Solar [C04 C07]
+//@   requires inYears(solar.year) && -200000 <= months && months <= 200000 && inYears(divf(solar.year*12+solar.month-1+months, 12))
+//@   ensures result.year*12+result.month-1 == solar.year*12+solar.month-1+months
+//@   ensures result.day == ite(result.year == 1582 && result.month == 10, ite(solar.day > 4 && solar.day < 15, solar.day+10, solar.day),
+//@           ite(solar.day > dim(result.year, result.month), dim(result.year, result.month), solar.day))
+//@   ensures result.hour == solar.hour && result.minute == solar.minute && result.second == solar.second
+
+//@ # ---------------------------------------------------------------- zodiac (C20)
+//@ # conventional first days, in cyclic order from Aries (index 0)
+//@ spec func signOf(m int, d int) int
+//@   = ite(m*100+d >= 321 && m*100+d <= 419, 0,
+//@     ite(m*100+d >= 420 && m*100+d <= 520, 1,
+//@     ite(m*100+d >= 521 && m*100+d <= 621, 2,
+//@     ite(m*100+d >= 622 && m*100+d <= 722, 3,
+//@     ite(m*100+d >= 723 && m*100+d <= 822, 4,
+//@     ite(m*100+d >= 823 && m*100+d <= 922, 5,
+//@     ite(m*100+d >= 923 && m*100+d <= 1023, 6,
+//@     ite(m*100+d >= 1024 && m*100+d <= 1122, 7,
+//@     ite(m*100+d >= 1123 && m*100+d <= 1221, 8,
+//@     ite(m*100+d >= 1222 || m*100+d <= 119, 9,
+//@     ite(m*100+d <= 218, 10, 11)))))))))))
+
+//@ # ================================================================ SolarMonth / Season / HalfYear / Year (C15)
+
+//@ func (solarMonth *SolarMonth) Next(months int) *SolarMonth [C15 C04]
+//@   requires 1 <= solarMonth.month && solarMonth.month <= 12 && -1000000 <= solarMonth.year && solarMonth.year <= 1000000 && -1000000 <= months && months <= 1000000
+//@   ensures result.year*12 + result.month-1 == solarMonth.year*12 + solarMonth.month-1 + months
+//@   ensures 1 <= result.month && result.month <= 12
